@@ -52,6 +52,7 @@ inductive Tag where
   | hostValidSmall | hostValidNeMissed | excessiveCollateral | windowEndShrinks
   | voidNeBurn | validBelowBase
   | hostMissedSmall | afterHardfork | renterSig | fundCost | budget | sessionOver | noContract
+  | windowEndUnstorable
 deriving DecidableEq, Repr
 
 /-- panic sites, grouped by root cause (`Site.label`) -/
@@ -498,11 +499,16 @@ structure Sigs where
   contract : Bool
 deriving DecidableEq, Repr
 
+/-- `math.MaxInt64`: the largest height the contract store can record (database/sql refuses a uint64 with the high
+bit set); the handlers refuse a larger proof window end before anything is signed or broadcast -/
+def maxStorable : Nat := 2 ^ 63 - 1
+
 /-- rhp/v2/rpc.go `rpcFormContract` once the request has been read: `height` is the height handed to the
 validator (`sh.chain.Tip().Height`, read AFTER the request body arrived), `st` the settings read when the
 handler started -/
 def rpcForm2Body (requireHeight : Nat) (fc : Rev) (expUH height : Nat) (st : Settings) (sg : Sigs) : Res Recorded := do
   check .afterHardfork (decide (fc.wStart ≥ requireHeight))
+  check .windowEndUnstorable (decide (fc.wEnd > maxStorable))   -- heights are stored as int64
   let hostCollateral ← validateFormation fc expUH height st
   check .renterSig (!sg.contract)                            -- validateRenterRevisionSignature
   pure { locked := hostCollateral, rpcRevenue := st.contractPrice, storageRevenue := 0, risked := 0, clearingRPC := 0 }
@@ -518,6 +524,7 @@ def rpcRenew2Body (fx : Bool) (requireHeight : Nat) (existing renewal : Rev) (fi
     (expUH height : Nat) (st : Settings) (sg : Sigs) : Res Recorded := do
   check .locked (decide (existing.revNo = maxRev))             -- session.ContractRevisable
   check .afterHardfork (decide (renewal.wStart ≥ requireHeight))
+  check .windowEndUnstorable (decide (renewal.wEnd > maxStorable))
   let clearing ← clearingRevision existing finalVals
   let evr ← out0 .rpcExistingValidRenter existing.valid
   let expectedExchange := if st.baseRPCPrice > evr.val then evr.val else st.baseRPCPrice
@@ -560,6 +567,7 @@ def rpcRenew2At (fx useTip : Bool) (requireHeight : Nat) (existing renewal : Rev
 def rpcRenew3 (fx : Bool) (requireHeight : Nat) (existing clearing renewal : Rev)
     (expUH height : Nat) (st : Settings) (sg : Sigs) : Res Recorded := do
   check .afterHardfork (decide (renewal.wStart ≥ requireHeight))
+  check .windowEndUnstorable (decide (renewal.wEnd > maxStorable))
   let finalPayment ← validateClearing fx existing clearing 0
   check .renterSig (!sg.clearing)     -- final revision signature, verified with the existing contract's renter key
   let (baseRevenue, baseCollateral) ← renewBase fx st.renewCost st.storagePrice st.collateral existing renewal
